@@ -743,3 +743,13 @@ package gorm
 //@   let select0 = db.Statement.Clauses["SELECT"]
 //@   ensures ordering-restored: hadOrder && !grouped ==> has(result.Statement.Clauses, "ORDER BY") && result.Statement.Clauses["ORDER BY"] == order0
 //@   ensures selection-restored: hadSelect ==> has(result.Statement.Clauses, "SELECT") && result.Statement.Clauses["SELECT"] == select0
+
+//@ # ---------- C19: ToSQL renders the receiver's chain in a dry-run session ----------
+//@ # The handle given to the callback is a DryRun session (no driver call), without the implicit transaction, and it
+//@ # continues the receiver's own chain (not NewDB): the text shown is the statement the same chain would send.
+//@ site to-sql-session
+//@   match call gorm.(*DB).Session
+//@   in gorm.(*DB).ToSQL
+//@   min-sites 1
+//@   assert dry-run-session: arg1.DryRun && arg1.SkipDefaultTransaction [C19]
+//@   assert continues-the-receivers-chain: arg0 == db && !arg1.NewDB [C19]
